@@ -89,7 +89,11 @@ TEXT = {
           "step is always enabled until main has returned (no deadlock) and every step decreases a natural-number measure (every run ends); at "
           "return no socket is open, the error is non-nil and, unless stopped from outside, it is the bind error. The pre-repair code is kept as a "
           "mutant with a 9-step schedule that deadlocks with a bound socket (F3, fixed in /repo). Tie: the real ListenAndServe over address lists "
-          "with busy ports in every subset and cancellation at various times, judged by the extracted c16_ok spec (watchdog, re-bind, error class).",
+          "with busy ports in every subset (and the same address listed twice) and cancellation at various times, judged by the extracted c16_ok spec "
+          "(watchdog, re-bind, error class). The start wrapper (run.go proxySvc.start) is a second small LTS (Model/Start.v): with room for one error "
+          "in the channel start never reports success for a listener that had failed (C16_start_reports); the unbuffered channel of the original "
+          "code is kept as a refuted example (F23, fixed in /repo). That model is tied to the code only by the daemon engine: the real binary started "
+          "on unbindable addresses on a CPU shared with a busy process must report the failure and exit.",
   "note": "Trusted: Coq kernel, extraction, driver, harness. The model's atomic steps (bind, register under the mutex, close pass, channel send/receive) are the Go primitives' documented semantics; the internal interleaving is not observed, only outcomes. proxySvc.start's 5 s wrapper is modelled only as an assumption.",
   "technique": "Coq proof (LTS invariant, progress, decreasing measure; refuted mutant) + outcome correspondence check over bind-failure/cancellation matrix",
  },
